@@ -30,7 +30,8 @@ RULE = (
     "sources: same address in another textual form, other host, other port, other scope, unparsable, multicast "
     "destination) under all 32 option combinations cycled by counter; address texts built from a known binary address; "
     "stream scripts (every single cut and cut pair of framed streams, random splits, would-block, EOF, deadlines, short "
-    "sends); a case is non-trivial if its key (kind + inputs) is new"
+    "sends); udp_with_fallback scripts (UDP script ending in a genuine / forged / cut truncated reply + TCP script), sync and async; "
+    "a case is non-trivial if its key (kind + inputs) is new"
 )
 TRUSTED_BASE = [
     "scripted socket / selector / clock fakes in harness/props/C18.py (contract of sockets and selectors: recv(n) returns "
@@ -41,9 +42,11 @@ TRUSTED_BASE = [
 ASSUMPTIONS = [
     "TSIG-signed exchanges, DoT/DoH/DoQ, udp_with_fallback and socket creation/connect are outside the model",
     "address texts are ASCII without newline (the '$' of dns.ipv6's dot-quad pattern is then the end of text)",
-    "dns.asyncquery is tied by correspondence only (same model, scripted backend sockets); no separate theorem",
-    "what dns.message.from_wire makes of the octets is abstracted to (short | header+partial+exception | full [+trailing]); "
-    "the parser itself is C03/C04",
+    "dns.asyncquery has its own model functions (backend recv/recvfrom/sendall calls with a per-call timeout) and theorems; "
+    "the backend socket's contract (recv returns at most n octets, b'' at EOF, raises Timeout after its timeout; sendall sends all or "
+    "times out) is the scripted fake's",
+    "the model reads 'shorter than a header', id, QR, opcode, TC from the datagram's own octets; what the reader finds after the "
+    "12-octet header (question entries, EDNS flags, whether and how it raised, trailing octets) is a summary; the reader itself is C03/C04",
 ]
 
 AF4 = int(socket.AF_INET)
@@ -437,10 +440,23 @@ def summarise(d):
     return ("F", d["id"], d["flags"], edns, parsed, bool(d.get("trailing")))
 
 
-def p_wire(s):
+def p_qs(questions):
+    return ";".join(f"{p_name(l)}/{c}/{t}" for (l, c, t) in questions) if questions else "-"
+
+
+def p_body(s):
+    """what the reader finds after the header: <Q>~<ednsflags>~<n|0|1 broken>~<trailing>"""
     if s[0] == "S":
-        return "S"
-    return f"{s[0]}~{p_msg(s[1], s[2], s[3], s[4])}~{1 if s[5] else 0}"
+        return "-~0~n~0"
+    if s[0] == "B":
+        return f"{p_qs(s[4])}~{s[3]}~{1 if s[5] else 0}~0"
+    return f"{p_qs(s[4])}~{s[3]}~n~{1 if s[5] else 0}"
+
+
+def p_wire(s, wire_hex):
+    """a datagram for the model: its octets (the model reads id / flags / 'shorter than a header' from them)
+    and the body summary"""
+    return f"{wire_hex or '-'}~{p_body(s)}"
 
 
 def derive_summary(wire: bytes):
@@ -597,7 +613,7 @@ def ev_complete(ev):
 def p_uev(ev):
     if ev["t"] == "W":
         return f"W{ev['dt']}"
-    return f"D={p_addr(ev['src'])}={p_wire(ev['sum'])}"
+    return f"D={p_addr(ev['src'])}={p_wire(ev['sum'], ev['wire'])}"
 
 
 def dg_props(ev, o, coe=False):
@@ -676,9 +692,9 @@ def eval_udp(ctx: Ctx, c: dict):
     evs = " ".join(p_uev(e) for e in events)
     if api in ("udp", "audp"):
         blocks = ",".join(str(x) for x in c.get("send_blocks", [])) or "-"
-        op = f"c18.udp {int(coe)} {q_sum(qd)} {c['af']} {p_addr(dest)} {p_opt(c['timeout'])} {p_opts(o)} {blocks} {c['now']} {evs}"
+        op = f"c18.{'audp' if is_async else 'udp'} {int(coe)} {q_sum(qd)} {c['af']} {p_addr(dest)} {p_opt(c['timeout'])} {p_opts(o)} {blocks} {c['now']} {evs}"
     else:
-        op = (f"c18.recvudp {int(coe)} {c['af']} {p_addr(dest)} {p_opt(c['timeout'])} {p_opts(o)} "
+        op = (f"c18.{'arecvudp' if is_async else 'recvudp'} {int(coe)} {c['af']} {p_addr(dest)} {p_opt(c['timeout'])} {p_opts(o)} "
               f"{q_sum(qd) if query_given else 'none'} {c['now']} {evs}")
     ctx.corr(op.rstrip(), impl, c)
     ctx.count(f"udp.{api}." + (out[1] if out[0] == "err" else "ok"))
@@ -822,7 +838,7 @@ def eval_fromwire(ctx, e, o, c):
         impl = "err OtherParse"
     except Exception as ex:
         impl = "err FOREIGN:" + type(ex).__name__
-    ctx.corr(f"c18.fromwire {p_wire(s)} {int(o['it'])} {int(o['rt'])} 0", impl, c)
+    ctx.corr(f"c18.fromwire {p_wire(s, e['wire'])} {int(o['it'])} {int(o['rt'])} 0", impl, c)
     ctx.count("fromwire." + impl.split(" ")[1 if impl.startswith("err") else 0].split(":")[0])
 
 
@@ -889,16 +905,21 @@ def eval_stream(ctx: Ctx, c: dict):
     exp = None if c["timeout"] is None else c["now"] + c["timeout"]
     sev = c.get("sevents", [])
     rev = c.get("revents", [])
-    is_async = k in ("arecvtcp", "atcp")
+    is_async = k in ("arecvtcp", "atcp", "areadexactly", "asendtcp")
     sock = (AsyncTcpSock if is_async else TcpSock)(clock, sev, rev)
     frames = c.get("frames", {})  # hex frame -> datagram description
     sums = {h: list(summarise(d)) if d.get("raw") is None else list(derive_summary(bytes.fromhex(h))) for h, d in frames.items()}
-    ptbl = " ".join(f"P{h or '-'}={p_wire(s)}" for h, s in sums.items())
+    ptbl = " ".join(f"P{h or '-'}={p_body(s)}" for h, s in sums.items())
     out = None
     with patched(clock):
         try:
             if k == "netread":
                 out = ("ok", dns.query._net_read(sock, c["count"], exp))
+            elif k == "areadexactly":
+                out = ("ok", run_coro(dns.asyncquery._read_exactly(sock, c["count"], exp)))
+            elif k == "asendtcp":
+                nb, _t = run_coro(dns.asyncquery.send_tcp(sock, bytes.fromhex(c["data"]), exp))
+                out = ("ok", nb)
             elif k == "netwrite":
                 dns.query._net_write(sock, bytes.fromhex(c["data"]), exp)
                 out = ("ok", None)
@@ -929,29 +950,31 @@ def eval_stream(ctx: Ctx, c: dict):
         ctx.fail(f"C18/{k}/foreign-exception:{fam[8:]}", f"{k} raised {fam}", rep)
     revs = " ".join(p_rev(e) for e in rev)
     sevs = " ".join(p_sev(e) for e in sev)
-    if k == "netread":
+    blocks = " ".join(str(e[1]) for e in sev if e[0] == "W")
+    if k in ("netread", "areadexactly"):
+        fn = "_net_read" if k == "netread" else "asyncquery._read_exactly"
         impl = f"ok {hx(out[1])} rest={hx(sock.stream_rest())} t={clock.now}" if out[0] == "ok" else f"err {fam}"
-        ctx.corr(f"c18.netread {c['count']} {p_opt(c['timeout'])} {c['now']} {revs}".rstrip(), impl, c)
+        ctx.corr(f"c18.{k} {c['count']} {p_opt(c['timeout'])} {c['now']} {revs}".rstrip(), impl, c)
         buf, why = ref_stream(rev, c["now"], exp, lambda b: None if len(b) >= c["count"] else c["count"])
         if out[0] == "ok":
             if why != "ok" or out[1] != buf[: c["count"]]:
-                ctx.fail("C18/_net_read/framing/wrong-octets", f"_net_read returned {out[1].hex()} for a stream delivering {buf.hex()} ({why})", rep)
+                ctx.fail(f"C18/{fn}/framing/wrong-octets", f"_net_read returned {out[1].hex()} for a stream delivering {buf.hex()} ({why})", rep)
         elif why == "ok" and c["count"] <= len(buf):
-            ctx.fail(f"C18/_net_read/framing/error-on-complete-stream/{fam}", "the octets were all there before EOF / the deadline", rep)
+            ctx.fail(f"C18/{fn}/framing/error-on-complete-stream/{fam}", "the octets were all there before EOF / the deadline", rep)
         elif fam not in ("EOF", "Timeout", "Exhausted") or (why != "ok" and fam != why):
-            ctx.fail(f"C18/_net_read/short-stream/wrong-error/{fam}", f"stream ends by {why}, raised {fam}", rep)
+            ctx.fail(f"C18/{fn}/short-stream/wrong-error/{fam}", f"stream ends by {why}, raised {fam}", rep)
         return
-    if k in ("netwrite", "sendtcp"):
+    if k in ("netwrite", "sendtcp", "asendtcp"):
         data = bytes.fromhex(c["data"])
         full = data if k == "netwrite" else len(data).to_bytes(2, "big") + data
         impl = f"sent={hx(sock.sent)} ok t={clock.now}" if out[0] == "ok" else f"sent={hx(sock.sent)} err {fam}"
-        ctx.corr(f"c18.{k} {hx(data)} {p_opt(c['timeout'])} {c['now']} {sevs}".rstrip(), impl, c)
-        n, why = ref_write(full, sev, c["now"], exp)
+        ctx.corr(f"c18.{k} {hx(data)} {p_opt(c['timeout'])} {c['now']} {blocks if k == 'asendtcp' else sevs}".rstrip(), impl, c)
+        n, why = ref_write(full, ([e for e in sev if e[0] == "W"] + [["A", 70000]]) if k == "asendtcp" else sev, c["now"], exp)
         if out[0] == "ok" and sock.sent != full:
             ctx.fail(f"C18/{k}/framing/emitted-differs", f"reported success after emitting {sock.sent.hex()} for {full.hex()}", rep)
         if not full.startswith(sock.sent):
             ctx.fail(f"C18/{k}/framing/emitted-not-a-prefix", f"emitted {sock.sent.hex()} for {full.hex()}", rep)
-        if out[0] == "ok" and k == "sendtcp" and out[1] != len(full):
+        if out[0] == "ok" and k in ("sendtcp", "asendtcp") and out[1] != len(full):
             ctx.fail(f"C18/{k}/framing/reported-length", "bytes_sent is not the framed length", rep)
         if out[0] == "err" and why == "ok":
             ctx.fail(f"C18/{k}/framing/error-although-all-accepted/{fam}", "the socket accepted everything before the deadline", rep)
@@ -961,13 +984,13 @@ def eval_stream(ctx: Ctx, c: dict):
     # receive side with framing
     if k in ("recvtcp", "arecvtcp"):
         buf, why = ref_stream(rev, c["now"], exp, frame_need)
-        coe = int(bool(c.get("ie", False))) if k == "arecvtcp" else 0
+        extra = f" {int(bool(c.get('ie', False)))}" if k == "arecvtcp" else ""
         if out[0] == "ok":
             m, t = out[1]
             impl = f"ok id={m.id} flags={int(m.flags)} frame={hx(bytes(m.wire))} rest={hx(sock.stream_rest())} t={t}"
         else:
             impl = f"err {fam}"
-        ctx.corr(f"c18.recvtcp {p_opt(c['timeout'])} {c['now']} {int(c['it'])} {coe} {ptbl} / {revs}".replace("  ", " ").rstrip(), impl, c)
+        ctx.corr(f"c18.{k} {p_opt(c['timeout'])} {c['now']} {int(c['it'])}{extra} {ptbl} / {revs}".replace("  ", " ").rstrip(), impl, c)
         oracle_frame(ctx, k, c, rep, out, fam, buf, why, sums, None, sock)
         return
     # tcp / atcp
@@ -998,8 +1021,8 @@ def eval_stream(ctx: Ctx, c: dict):
         impl = f"sent={hx(sock.sent)} ok id={r.id} flags={int(r.flags)} frame={hx(bytes(r.wire))} t={t}"
     else:
         impl = f"sent={hx(sock.sent)} err {fam}"
-    sm = " ".join(p_sev(e) for e in sev_model)
-    ctx.corr(f"c18.tcp {q_sum(qd)} {hx(qwire)} {p_opt(c['timeout'])} {int(c['it'])} {c['now']} {ptbl} / {sm} / {revs}".replace("  ", " ").rstrip(), impl, c)
+    sm = blocks if is_async else " ".join(p_sev(e) for e in sev_model)
+    ctx.corr(f"c18.{k} {q_sum(qd)} {hx(qwire)} {p_opt(c['timeout'])} {int(c['it'])} {c['now']} {ptbl} / {sm} / {revs}".replace("  ", " ").rstrip(), impl, c)
     if out[0] == "ok" and sock.sent != full:
         ctx.fail(f"C18/{k}/framing/emitted-differs", f"query framed as {sock.sent.hex()} instead of {full.hex()}", rep)
     if not full.startswith(sock.sent):
@@ -1121,9 +1144,115 @@ def eval_small(ctx: Ctx, c: dict):
         raise ValueError(k)
 
 
+def eval_fallback(ctx: Ctx, c: dict):
+    """udp_with_fallback (sync / async): a truncated UDP reply leads to exactly one TCP exchange with the same query"""
+    k = c["kind"]
+    is_async = k == "afallback"
+    rep = {"kind": k, "case": c}
+    o = dict(c["opts"], rt=True)
+    qd = c["q"]
+    where = c["where"]
+    arg = where["host"] + (f"%{where['rest'][2]}" if len(where["rest"]) == 3 and where["rest"][2] else "")
+    events = [ev_complete(dict(e)) for e in c["events"]]
+    sev, rev = c.get("sevents", []), c.get("revents", [])
+    frames = c.get("frames", {})
+    sums = {h: list(summarise(d)) if d.get("raw") is None else list(derive_summary(bytes.fromhex(h))) for h, d in frames.items()}
+    ptbl = " ".join(f"P{h or '-'}={p_body(s)}" for h, s in sums.items())
+
+    def run(fallback: bool):
+        clock = Clock(c["now"])
+        q = build_query(qd)
+        us = (AsyncUdpSock if is_async else UdpSock)(clock, c["af"], events, c.get("send_blocks", []))
+        ts = (AsyncTcpSock if is_async else TcpSock)(clock, sev, rev)
+        with patched(clock):
+            try:
+                if fallback and not is_async:
+                    r = dns.query.udp_with_fallback(q, arg, c["timeout"], where["rest"][0], None, 0, o["iu"], o["one"], o["it"], us, ts, o["ie"])
+                elif fallback:
+                    r = run_coro(dns.asyncquery.udp_with_fallback(q, arg, c["timeout"], where["rest"][0], None, 0, o["iu"], o["one"], o["it"],
+                                                                  us, ts, None, o["ie"]))
+                elif not is_async:
+                    r = dns.query.udp(q, arg, c["timeout"], where["rest"][0], None, 0, o["iu"], o["one"], o["it"], True, us, o["ie"])
+                else:
+                    r = run_coro(dns.asyncquery.udp(q, arg, c["timeout"], where["rest"][0], None, 0, o["iu"], o["one"], o["it"], True, us, None, o["ie"]))
+                return ("ok", r), us, ts, clock
+            except ScriptExhausted as e:
+                return ("err", family_of(e)), us, ts, clock
+            except Exception as e:
+                return ("err", family_of(e)), us, ts, clock
+
+    out, us, ts, clock = run(True)
+    uout, us2, _ts2, uclock = run(False)  # the UDP phase alone (deterministic replay of the same script)
+    touched = bool(ts.sent) or len(ts.revents) != len(rev) or len(ts.sevents) != len(sev) or ts.stream_rest() != b"".join(
+        bytes.fromhex(e[1]) for e in rev if e[0] == "D")
+    if out[0] == "ok":
+        r, used = out[1]
+        impl = f"sent={hx(ts.sent)} ok tcp={int(bool(used))} id={r.id} flags={int(r.flags)} t={r.time}"
+    else:
+        impl = f"sent={hx(ts.sent)} err {out[1]}"
+    qwire = build_query(qd).to_wire()
+    full = len(qwire).to_bytes(2, "big") + qwire
+    blocks = ",".join(str(x) for x in c.get("send_blocks", [])) or "-"
+    uevs = " ".join(p_uev(e) for e in events)
+    sm = " ".join(str(e[1]) for e in sev if e[0] == "W") if is_async else " ".join(p_sev(e) for e in sev)
+    revs = " ".join(p_rev(e) for e in rev)
+    op = (f"c18.{k} {q_sum(qd)} {hx(qwire)} {c['af']} {p_addr(where)} {p_opt(c['timeout'])} {p_opts(o)} {blocks} {c['now']} "
+          f"{ptbl} / {uevs} / {sm} / {revs}")
+    ctx.corr(" ".join(op.split()), impl, c)
+    fam = out[1] if out[0] == "err" else ("tcp" if out[1][1] else "udp")
+    ctx.count(f"{k}.{fam}")
+    tag = "async-" if is_async else ""
+    if out[0] == "err" and out[1].startswith("FOREIGN"):
+        ctx.fail(f"C18/{tag}udp_with_fallback/foreign-exception:{out[1][8:]}", f"raised {out[1]}", rep)
+        return
+    # ---- oracle: the UDP phase decides, and only a truncation leads to TCP, exactly once, with the same query
+    udp_trunc = uout[0] == "err" and uout[1] == "Truncated"
+    if not udp_trunc:
+        if touched:
+            ctx.fail(f"C18/{tag}udp_with_fallback/tcp-used-without-truncation", f"UDP phase ended with {uout[1] if uout[0]=='err' else 'a reply'}, yet the TCP socket was used", rep)
+        if uout[0] == "ok":
+            if out[0] != "ok" or out[1][1] or out[1][0].id != uout[1].id or int(out[1][0].flags) != int(uout[1].flags):
+                ctx.fail(f"C18/{tag}udp_with_fallback/udp-reply-not-returned", "the UDP reply was not what udp_with_fallback returned (or used_tcp is set)", rep)
+        elif out[0] != "err" or out[1] != uout[1]:
+            ctx.fail(f"C18/{tag}udp_with_fallback/udp-error-not-propagated", f"UDP phase raised {uout[1]}, udp_with_fallback: {impl}", rep)
+        return
+    # truncated: the deciding datagram is a reply to q (or ignore_errors is off) — eval_udp's clauses cover that; here: the TCP leg
+    if out[0] == "ok" and not out[1][1]:
+        ctx.fail(f"C18/{tag}udp_with_fallback/truncation-without-tcp", "a truncated UDP reply was returned / used_tcp is False", rep)
+        return
+    if out[0] == "err" and out[1] == "Truncated":
+        ctx.fail(f"C18/{tag}udp_with_fallback/truncation-without-tcp", "Truncated escaped instead of a TCP exchange", rep)
+        return
+    if not full.startswith(ts.sent) or (out[0] == "ok" and ts.sent != full):
+        ctx.fail(f"C18/{tag}udp_with_fallback/tcp-query-differs", f"TCP leg emitted {ts.sent.hex()}, one framed copy of the query is {full.hex()}", rep)
+    # reference of the TCP leg, starting at the clock of the truncation with a fresh deadline
+    t0 = uclock.now
+    exp2 = None if c["timeout"] is None else t0 + c["timeout"]
+    sev_model = ([e for e in sev if e[0] == "W"] + [["A", 70000]]) if is_async else sev
+    nsent, wwhy = ref_write(full, sev_model, t0, exp2)
+    if wwhy != "ok":
+        if out[0] == "ok":
+            ctx.fail(f"C18/{tag}udp_with_fallback/short-write-reported-as-success", f"the TCP socket stops by {wwhy}", rep)
+        return
+    now1, acc = t0, 0
+    for e in sev_model:
+        if acc >= len(full):
+            break
+        if e[0] == "A":
+            acc += min(e[1], len(full) - acc)
+        else:
+            now1 += e[1]
+    buf, why = ref_stream(rev, now1, exp2, frame_need)
+    tout = ("ok", (out[1][0], None)) if out[0] == "ok" else out
+    cc = dict(c, revents=rev, it=o["it"])
+    oracle_frame(ctx, "afallback" if is_async else "fallback", cc, rep, tout, out[1] if out[0] == "err" else "ok", buf, why, sums, qd, ts)
+
+
 def eval_case(ctx: Ctx, c: dict):
     k = c["kind"]
-    if k == "udp":
+    if k in ("fallback", "afallback"):
+        eval_fallback(ctx, c)
+    elif k == "udp":
         eval_udp(ctx, c)
     elif k in ("pton", "match", "isresp"):
         eval_small(ctx, c)
@@ -1484,17 +1613,21 @@ def gen_frame(rng, qd):
 
 def gen_stream_case(rng, kind=None):
     if kind is None:
-        kind = rng.choice(["netread"] * 3 + ["netwrite"] * 2 + ["sendtcp"] + ["recvtcp"] * 3 + ["tcp"] * 5 + ["arecvtcp", "atcp", "atcp"])
+        kind = rng.choice(["netread"] * 3 + ["netwrite"] * 2 + ["sendtcp"] + ["recvtcp"] * 3 + ["tcp"] * 5 + ["arecvtcp"] * 2 + ["atcp"] * 3
+                          + ["areadexactly"] * 2 + ["asendtcp"])
     c = {"kind": kind, "timeout": None if rng.chance(1, 2) else rng.range(0, 14), "now": rng.choice([0, 7, 1000000])}
-    if kind == "netread":
+    if kind in ("netread", "areadexactly"):
         s = rng.bytes(rng.choice([0, 1, 2, 3, 5, 8, 13, 40]))
         c["count"] = rng.choice([0, 1, 2, len(s), max(0, len(s) - 1), len(s) + 1, rng.below(len(s) + 2)])
         c["revents"] = gen_revents(rng, s)
         return c
-    if kind in ("netwrite", "sendtcp"):
+    if kind in ("netwrite", "sendtcp", "asendtcp"):
         data = rng.bytes(rng.choice([0, 1, 2, 3, 12, 29, 40, 300]))
         c["data"] = data.hex()
-        c["sevents"] = gen_sevents(rng, len(data) + (2 if kind == "sendtcp" else 0))
+        if kind == "asendtcp":
+            c["sevents"] = [["W", rng.below(6)] for _ in range(rng.choice([0, 0, 1, 2]))]
+        else:
+            c["sevents"] = gen_sevents(rng, len(data) + (2 if kind == "sendtcp" else 0))
         return c
     qd = gen_qdesc(rng)
     frame, d = gen_frame(rng, qd)
@@ -1553,6 +1686,36 @@ def cut_cases(rng, n_streams, max_len, pairs):
         for i in range(0, len(qw) + 3):
             out.append({"kind": "sendtcp", "timeout": None, "now": 0, "data": qw.hex(), "sevents": [["A", i], ["W", 1], ["A", len(qw) + 2]]})
     return out
+
+
+def gen_fallback_case(rng, counter):
+    """a UDP script that (often) ends in a truncated reply, plus a TCP script for the retry"""
+    kind = "afallback" if rng.chance(1, 3) else "fallback"
+    u = gen_udp_case(rng, counter, api=("audp" if kind == "afallback" else "udp"))
+    qd = u["q"]
+    fam = u["where"]["fam"]
+    events = u["events"]
+    r = rng.below(4)
+    if r < 3 and events and events[-1]["t"] == "D" and "flags" in events[-1]["d"]:
+        # turn the final genuine reply into a truncated one (sometimes cut short as real truncated replies are)
+        d = dict(events[-1]["d"])
+        d["flags"] |= 0x0200
+        if r == 1 and d.get("marker") is not None:
+            d["cut"] = ["an", rng.below(len(marker_rr(0)))]
+        if r == 2 and rng.chance(1, 2):
+            d["id"] = (d["id"] + 1) % 65536  # a forged truncation
+        events[-1] = dict(events[-1], d=d)
+    frame, d = gen_frame(rng, qd)
+    if rng.chance(2, 3):
+        d = {"id": qd["id"], "flags": 0x8000 | (qd["flags"] & 0x7900) | 0x0080, "questions": qd["questions"],
+             "marker": None if ((qd["flags"] >> 11) & 0xF == 5 and not qd["questions"]) else 7}
+        frame = build_dgram(d)
+    stream = len(frame).to_bytes(2, "big") + frame + (rng.bytes(rng.below(4)) if rng.chance(1, 4) else b"")
+    total = 2 + len(build_query(qd).to_wire())
+    c = {"kind": kind, "q": qd, "where": u["where"], "af": u["af"], "opts": u["opts"], "timeout": u["timeout"], "now": u["now"],
+         "send_blocks": u["send_blocks"], "events": events, "frames": {frame.hex(): d}, "revents": gen_revents(rng, stream),
+         "sevents": (gen_sevents(rng, total) if kind == "fallback" else ([["W", rng.below(6)]] if rng.chance(1, 4) else []))}
+    return c
 
 
 def gen_pton_case(rng):
@@ -1640,6 +1803,10 @@ def generate(ctx: Ctx, scale: int, rng, counter0=0):
         c = gen_udp_case(rng, counter0 + i)
         ctx.case(("udp", json.dumps(c, sort_keys=True)), sample=c)
         eval_case(ctx, c)
+    for i in range(n(3000)):
+        c = gen_fallback_case(rng, counter0 + i)
+        ctx.case((c["kind"], json.dumps(c, sort_keys=True)), sample=c)
+        eval_case(ctx, c)
     for i in range(n(8000)):
         c = gen_stream_case(rng)
         ctx.case((c["kind"], json.dumps(c, sort_keys=True)), sample=c)
@@ -1687,11 +1854,14 @@ LEVEL = {
             "address; every other datagram is skipped or raises exactly as configured; a genuine TC reply raises Truncated when asked and a "
             "forged one does not end an ignore_errors exchange; for every split of the stream into chunks and would-block events receive_tcp "
             "returns exactly the first length-prefixed message and _net_write emits exactly the message octets; early EOF or an expired "
-            "deadline is an error. The model is tied to the code by a differential correspondence check through scripted sockets on the public "
+            "deadline is an error; a truncated UDP reply in udp_with_fallback leads to exactly one TCP exchange with the same query and TCP "
+            "is used in no other case; the acceptance predicate is proved about the datagram's header octets (id, QR, opcode, TC, length >= 12); "
+            "dns.asyncquery's _read_exactly / receive_tcp / send_tcp / tcp / receive_udp / udp / udp_with_fallback have their own model "
+            "functions (backend calls with per-call timeouts), proved to compute the same results and to satisfy the same theorems. The model is tied to the code by a differential correspondence check through scripted sockets on the public "
             "sock= parameters (real _wait_for over a scripted selector and virtual clock) and by constants regenerated from the working tree.",
     "note": "Trusted: Lean kernel + propext/Classical.choice/Quot.sound; statements in lean/Props/C18.lean; the scripted socket/selector "
-            "fakes and the independent datagram encoder; generator coverage. dns.asyncquery is tied by correspondence only (same model). "
-            "What the parser makes of the octets is abstracted (C03/C04 own the parser).",
+            "fakes (socket, selector and async backend contracts) and the independent datagram encoder; generator coverage. "
+            "What the reader finds after the 12-octet header is a summary (C03/C04 own the reader).",
     "technique": "Lean 4 proof (induction over datagram scripts / chunk lists) + model-vs-implementation correspondence over scripted sockets",
     "design_ref": "DESIGN.md §7 C18",
 }
